@@ -68,8 +68,8 @@ SweepInv ==
 AtIsCovering ==
   phase = "done" => \A j \in 1 .. Len(QuerySeq) : At(st.breaks, QuerySeq[j]) = answers[j]
 
-AnswersAscending ==
-  phase = "done" => \A j \in 1 .. Len(QuerySeq) : Ascending(At(st.breaks, QuerySeq[j]))
+Ascending ==
+  phase = "done" => \A j \in 1 .. Len(QuerySeq) : IsAscending(At(st.breaks, QuerySeq[j]))
 
 \* clauses of the statement that follow from Covering (checked on the property level itself)
 NoEmptyReported ==
